@@ -1,9 +1,52 @@
 #!/bin/sh
 # usage: ./run.sh <property id> [quick|thorough]
 # Rebuilds the checker (cached), then decides the property from /repo's current working tree.
+# thorough: larger analysis budgets + build-tagged sources, and a self-test of the check against the
+# property's own seeded changes (scratch worktree outside /repo and /verif, removed afterwards; the
+# self-test is recorded in the evidence and never changes the exit code).
 cd "$(dirname "$0")" || exit 2
 export GOFLAGS=-mod=mod GOPROXY=off GOSUMDB=off GOTOOLCHAIN=local GOWORK=off
 mkdir -p bin work evidence replay
 (cd checker && go build -o ../bin/jtverif ./cmd/jtverif) || { echo "VIOLATION property=$1 replay=/verif/replay/build-failed"; exit 1; }
 tier="${2:-${VERIF_TIER:-quick}}"
-exec bin/jtverif check "$1" --tier "$tier"
+if [ "$tier" != "thorough" ]; then
+  exec bin/jtverif check "$1" --tier "$tier"
+fi
+bin/jtverif check "$1" --tier thorough
+rc=$?
+# ---- self-test against the property's seeded changes
+res=""
+for d in seeded/"$1"-*; do
+  [ -f "$d/patch.diff" ] || continue
+  id=$(basename "$d")
+  W=$(mktemp -d /tmp/jtverif-selftest.XXXXXX); V=$(mktemp -d /tmp/jtverif-selftest-v.XXXXXX)
+  rmdir "$W"
+  if git -C /repo worktree add -q --detach "$W" HEAD 2>/dev/null; then
+    # carry the working tree's uncommitted state over, then the seeded change
+    git -C /repo diff HEAD | git -C "$W" apply 2>/dev/null
+    if git -C "$W" apply "$PWD/$d/patch.diff" 2>/dev/null; then
+      cp -r spec "$V/spec"; cp known_findings.json "$V/"
+      if bin/jtverif check "$1" --tier quick --repo "$W" --verif "$V" >/dev/null 2>&1; then r=missed; else r=detected; fi
+    else
+      r=patch-does-not-apply
+    fi
+    git -C /repo worktree remove --force "$W" 2>/dev/null
+  else
+    r=no-worktree
+  fi
+  rm -rf "$W" "$V"
+  echo "SELFTEST property=$1 change=$id $r"
+  res="$res $id=$r"
+done
+python3 - "$1" "$res" <<'PY'
+import json,sys
+pid,res=sys.argv[1],sys.argv[2].split()
+p='evidence/%s.json'%pid
+try:
+    e=json.load(open(p))
+    e.setdefault('coverage',{})['selftest_seeded_changes']={k:v for k,v in (x.split('=',1) for x in res)}
+    json.dump(e,open(p,'w'),indent=1,ensure_ascii=False)
+except Exception as ex:
+    print('selftest: evidence not updated:',ex)
+PY
+exit $rc
